@@ -4,7 +4,7 @@ import os
 
 from .. import env, gen
 from ..monitors import MethodPatch
-from ..oracle import DIR_SUFFIX, audit_store, file_bytes, list_store, parse_dir_bytes
+from ..oracle import DIR_SUFFIX, H, audit_store, file_bytes, list_store, parse_dir_bytes
 
 RULE = (
     "case = history of 3-10 steps over 1-3 stores (classes local/base; algorithms md5, md5-dos2unix, sha256, blake3); step "
@@ -140,7 +140,7 @@ def run_shard(ctx):
                     st = rng.choice(stores)
                     odb, algo = st["odb"], st["algo"]
                     op = rng.choice(["stage-dir", "stage-dir", "stage-file", "upload-stage", "add", "transfer", "save", "migrate", "gc", "checkout", "verify-rotten",
-                                     "pws-stage-only", "pws-edit", "pws-stage"])
+                                     "pws-stage-only", "pws-edit", "pws-stage", "partial-download"])
                     if op.startswith("pws") and algo not in ("md5", "md5-dos2unix"):
                         op = "stage-file"
                     if op == "stage-dir" and algo not in ("md5", "md5-dos2unix"):
@@ -282,7 +282,8 @@ def run_shard(ctx):
                         idx = imd5(ibuild(p, fs), state=odb.state)
                         isave(idx, odb=odb)
                     elif op == "migrate":
-                        others = [s for s in stores if s is not st and s["algo"] != algo and not (algo == "md5" and s["algo"] == "md5-dos2unix")]
+                        # (also between two stores of the same algorithm, which may share the hash state)
+                        others = [s for s in stores if s is not st and not (algo == "md5" and s["algo"] == "md5-dos2unix")]
                         if not others:
                             rec[0] = op = "gc"
                             gc(odb, [env.HI(algo, o) for o in objs_of(st) if rng.random() < 0.7], shallow=rng.random() < 0.5)
@@ -297,6 +298,40 @@ def run_shard(ctx):
                                 n2 = migrate(prepare(odb, dst["odb"]))
                                 rec += ["rerun", n2]
                                 res.count("migrations_rerun")
+                    elif op == "partial-download":
+                        # objects are fetched from a store on a non-local filesystem whose download of one of them writes part of the
+                        # file and then fails (reported by the transfer): nothing may stay filed under that object's name; a second,
+                        # undisturbed transfer delivers it
+                        from dvc_objects.fs.memory import MemoryFileSystem
+
+                        class PartialReadFS(MemoryFileSystem):
+                            bad = ()
+
+                            def get_file(self, rpath, lpath, **kw):
+                                if any(rpath.endswith(b) for b in self.bad):
+                                    with open(lpath, "wb") as f:
+                                        f.write(self.cat_file(rpath)[: rng.randrange(0, 4)] + b"...")
+                                    raise OSError(5, "connection lost half way through the download")
+                                return super().get_file(rpath, lpath, **kw)
+
+                        mfs = PartialReadFS(global_store=False)
+                        far = HashFileDB(mfs, f"/far-{_step}", hash_name=algo)
+                        datas = [gen.small_content(rng) + b"-far-%d" % i for i in range(rng.randrange(2, 5))]
+                        oids_ = [H(algo, x) for x in datas]
+                        for o_, x in zip(oids_, datas):
+                            far.add_bytes(o_, x)
+                        nbad = rng.randrange(1, len(oids_))
+                        PartialReadFS.bad = tuple(o_[2:] for o_ in rng.sample(oids_, nbad))
+                        r = transfer(far, odb, {env.HI(algo, o_) for o_ in oids_}, jobs=rng.choice([1, 4]))
+                        res.count("downloads_failing_half_way", len(r.failed))
+                        rec += [len(oids_), "failed", len(r.failed)]
+                        audit(st["root"], st, "after-failed-download")
+                        PartialReadFS.bad = ()
+                        r2 = transfer(far, odb, {env.HI(algo, o_) for o_ in oids_}, jobs=rng.choice([1, 4]))
+                        lost = [o_ for o_ in oids_ if not os.path.isfile(os.path.join(st["root"], o_[:2], o_[2:]))]
+                        if r2.failed or lost:
+                            res.violation("object-not-delivered-after-failed-download", f"store {st['name']}: {len(r2.failed)} failed, {lost[:2]} absent after an undisturbed second transfer",
+                                          case=case, detail={"history": hist})
                     elif op == "gc":
                         used = [env.HI(algo, o) for o in objs_of(st) if rng.random() < 0.7]
                         shallow = rng.random() < 0.5
